@@ -787,9 +787,28 @@ func c14NullElement(p *Program, r *Report) {
 // of x == nil on the encoded element itself - exactly nil is refused (NULL cannot be expressed),
 // an empty element is written.
 func v2ElementGuard(p *Program, r *Report, rule string) {
+	// the two container writers and the package helpers they delegate the element writing to
+	var fns []*ssa.Function
+	seenFn := map[*ssa.Function]bool{}
 	for _, name := range []string{"writeCollection", "writeMap"} {
-		fnObj := p.LookupFunc("datacodec", name)
-		fn := p.SSA().FuncValue(fnObj)
+		root := p.SSA().FuncValue(p.LookupFunc("datacodec", name))
+		if !seenFn[root] {
+			seenFn[root] = true
+			fns = append(fns, root)
+		}
+		for _, b := range root.Blocks {
+			for _, ins := range b.Instrs {
+				if c, ok := ins.(*ssa.Call); ok {
+					if g := c.Call.StaticCallee(); g != nil && g.Pkg == root.Pkg && g.Blocks != nil && g.Signature.Recv() == nil && !seenFn[g] && strings.HasPrefix(g.Name(), "write") {
+						seenFn[g] = true
+						fns = append(fns, g)
+					}
+				}
+			}
+		}
+	}
+	for _, fn := range fns {
+		name := fn.Name()
 		n := 0
 		for _, b := range fn.Blocks {
 			for _, ins := range b.Instrs {
